@@ -12,7 +12,7 @@ import json
 import os
 import random
 
-from ..common import (REPO, WORK, Report, cstr, decide, load_findings, run_case_shards, run_impl, standard_proof_part)
+from ..common import (REPO, WORK, Report, coq_eval, cstr, decide, load_findings, run_case_shards, run_impl, standard_proof_part)
 from .. import pddlgen as G
 from .. import c01_gen as C
 from ..core_common import count_groups, flatten_units, run_worlds, world_literal
@@ -155,6 +155,16 @@ def run(args):
                               "witness_of": wd.get("witness_of")})
             all_verdicts += ch
         if hs == hashseeds[0]:
+            # how many generated in-fragment texts (a sample) and shipped files the decidable fragment G contains
+            import re as _re
+            for label, idx in (("generated_in_fragment_sample", [i for i, wd in enumerate(worlds) if wd["source"] == "generated" and not wd["oof"]][:40]),
+                               ("shipped_files", [i for i, wd in enumerate(worlds) if wd["source"].startswith("fixture")])):
+                if not idx:
+                    continue
+                out = coq_eval(PROP, CORR, "count_in_G [%s]" % ";\n".join(lits[i] for i in idx), name="count_in_G_" + label,
+                               header_extra=HEADER)
+                m = _re.search(r"=\s*(\d+)\s*:\s*nat", out)
+                stats.setdefault("in_G", {})[label] = {"in_G": int(m.group(1)) if m else None, "of": len(idx)}
             for wd, res in zip(worlds, results):
                 stats["worlds"] += 1
                 src = wd["source"].split(":")[0]
